@@ -75,7 +75,7 @@ def main():
     if len(sys.argv) >= 3 and sys.argv[1] == 'replay':
         return replay_file(sys.argv[2])
     prop = sys.argv[1]
-    tier = os.environ.get('VERIF_TIER', 'quick'); only = None; jobs = int(os.environ.get('VERIF_JOBS', '8'))
+    tier = os.environ.get('VERIF_TIER', 'quick'); only = None; jobs = int(os.environ.get('VERIF_JOBS', '5'))
     a = sys.argv[2:]
     while a:
         x = a.pop(0)
